@@ -838,6 +838,20 @@ def shard_c16(desc, rec):
 LABEL_POOL = ["a", "A", " a", "a ", "", "dup", "dup", "Dup", "é", "É", "x" * 255, "b", "marker 1", "marker  1"]
 
 
+class _Repr:
+    """a key shown by its class name (blocks and items have long reprs)"""
+
+
+def _foreign_keys(kind, blk):
+    """objects of other types that look related: items of the OTHER block kinds, and whole blocks (the block itself too)"""
+    z3 = np.zeros((2, 3), np.float32)
+    its = {"data3D": tdfData3D.MarkerTrack("a", z3), "emg": tdfEMG.EMGTrack("a", np.zeros(2, np.float32)),
+           "force3D": tdfForce3D.ForceTorqueTrack("a", z3, z3.copy(), z3.copy()),
+           "events": tdfEvents.Event("a", [1.0], tdfEvents.EventsDataType.singleEvent)}
+    out = tuple(v for k_, v in its.items() if k_ != kind)
+    return out + (blk, tdfEvents.TemporalEventsData(), tdfEMG.EMG(1000, 2))
+
+
 def c18_block(rec, rng, kind, case):
     k = rng.randint(0, 6)
     labels = [rng.choice(LABEL_POOL) for _ in range(k)]
@@ -992,7 +1006,7 @@ def _c18_probe(rec, rng, kind, blk, labels, k, V):
         except Exception as e:
             V("item-membership-raises", f"{type(e).__name__}: {e}"); return False
     # unsupported key types
-    for bad in (None, 1.5, b"a", ("a",), [0], {"a"}):
+    for bad in (None, 1.5, b"a", ("a",), [0], {"a"}) + _foreign_keys(kind, blk):
         rec.count("oracle:C18.bad-key")
         try:
             blk[bad]
